@@ -53,7 +53,39 @@ func init() {
 			add(map[string]interface{}{"op": "LSTM", "input_forget": f})
 			add(map[string]interface{}{"op": "LSTM", "input_forget": f, "P": true, "H0": false})
 		}
+		// the cut made inside one graph (Model.Run wires the state from the first piece to the second)
+		for _, c := range []struct {
+			op     string
+			g      int
+			first  string // outputs of the first piece
+			second string // inputs of the second piece
+			outs2  string
+			equal  []string
+			whole  string
+		}{
+			{"RNN", 1, ",h1", "X2,W,R,B,,h1", "y2,h2", []string{"Yh=h2"}, "Y,Yh"},
+			{"GRU", 3, ",h1", "X2,W,R,B,,h1", "y2,h2", []string{"Yh=h2"}, "Y,Yh"},
+			{"GRU", 3, "y1,h1", "X2,W,R,,,h1", ",h2", []string{"Yh=h2"}, ",Yh"},
+			{"LSTM", 4, ",h1,c1", "X2,W,R,B,,h1,c1", "y2,h2,c2", []string{"Yh=h2", "Yc=c2"}, "Y,Yh,Yc"},
+			{"LSTM", 4, "y1,h1,c1", "X2,W,R,,,h1,c1", ",h2,c2", []string{"Yh=h2", "Yc=c2"}, ",Yh,Yc"},
+		} {
+			hs := "hidden_size=2"
+			b := "B:1," + itoa(2*c.g*2)
+			wholeIn, firstIn := "X,W,R,B", "X1,W,R,B"
+			if c.second[len("X2,W,R,")] == ',' {
+				wholeIn, firstIn = "X,W,R", "X1,W,R"
+			}
+			nodes := []gnode{{"Concat", "X1,X2", "X", "axis=0"}, {c.op, wholeIn, c.whole, hs}, {c.op, firstIn, c.first, hs}, {c.op, c.second, c.outs2, hs}}
+			var outs []string
+			for _, e := range c.equal {
+				outs = append(outs, e[:2], e[3:])
+			}
+			cm := graphCase(nodes, []string{"X1:1,2,2", "X2:2,2,2"}, []string{"W:1," + itoa(c.g*2) + ",2", "R:1," + itoa(c.g*2) + ",2", b}, outs, nil)
+			cm["equal"] = c.equal
+			p.Jobs = append(p.Jobs, Job{Harness: "gonnx.H_C06_model", Case: cm})
+		}
 		p.Bounds = []string{
+			"the cut made inside one graph: whole sequence (length 3) and pieces (1 + 2) evaluated by one Model.Run with the state passed through node outputs/inputs, omitted outputs and skipped optional inputs spelled \"\" (RNN, GRU, LSTM; with and without B)",
 			"exact real arithmetic; X, W, R, B, P, initial_h and initial_c are solver variables; exp and tanh are uninterpreted (sigmoid = 1/(1+exp(-x)) as the library builds it, exp > 0)",
 			"RNN, GRU, LSTM x 10 (13 thorough) (seq,batch,input,hidden) size tuples with extents 1..3 (4) x every subset of the optional inputs {B, initial_h, initial_c, P} (absent trailing or skipped) x supported activation tuples and one unsupported name per slot x linear_before_reset in {absent,0,1} x input_forget in {0,1} x split points 1|2, 1|3, 2|3 (the state tensors returned by the first piece are fed to the second, same operator instance)",
 		}
